@@ -2338,7 +2338,9 @@ func (lex *Lexer) Lex() *token.Token {
 		lex.te = (lex.p)
 		(lex.p)--
 		{
-			lex.ungetStr("<")
+			if lex.te < lex.pe {
+				lex.ungetStr("<")
+			}
 			lex.setTokenPosition(tkn)
 			tok = token.T_INLINE_HTML
 			{
@@ -2355,7 +2357,9 @@ func (lex *Lexer) Lex() *token.Token {
 		lex.te = (lex.p)
 		(lex.p)--
 		{
-			lex.ungetStr("<")
+			if lex.te < lex.pe {
+				lex.ungetStr("<")
+			}
 			lex.setTokenPosition(tkn)
 			tok = token.T_INLINE_HTML
 			{
